@@ -29,7 +29,8 @@ def from_json(j):
         return ct.MapType({from_json(k): from_json(v) for k, v in j["v"]})
     if t == "timestamp":
         import datetime
-        return ct.TimestampType(datetime.datetime.fromtimestamp(0, datetime.timezone.utc) + datetime.timedelta(microseconds=j["us"]))
+        tz = datetime.timezone(datetime.timedelta(minutes=j.get("off", 0)))
+        return ct.TimestampType((datetime.datetime.fromtimestamp(0, datetime.timezone.utc) + datetime.timedelta(microseconds=j["us"])).astimezone(tz))
     if t == "duration":
         import datetime
         return ct.DurationType(datetime.timedelta(microseconds=j["us"]))
